@@ -125,7 +125,10 @@ class JSONSerialization(Serialization):
             schema = dispatch_method(p, safe=safe)
         else:
             schema = {'type': ptype.lower()}
-        return JSONNullable(schema) if p.allow_None else schema
+        # A Selector declared without a default holds None although its
+        # allow_None is not set
+        nullable = p.allow_None or p.default is None
+        return JSONNullable(schema) if nullable else schema
 
     @classmethod
     def serialize_parameter_value(cls, pobj, pname):
